@@ -471,6 +471,7 @@ def check_genpoints(run, plugin_outputs):
             report(dict(rp, kind="broken-correspondence"), "gen_func_ref:model-differs", True)
     check_gennew(run, plugin_outputs, report)
     check_matching(run, plugin_outputs, report, extra)
+    check_signatures(run, plugin_outputs, report)
 
 
 def check_gennew(run, plugin_outputs, report):
@@ -555,15 +556,66 @@ def check_matching(run, plugin_outputs, report, extra):
     for sp, pl, c, r in _gp_batches(plugin_outputs, "post", "check.sigcompat", extra):
         run.tally("returned_attribute_fits", "%s:%s:%s" % (
             c["src"], "signature" if c["sig"] else ("subtype" if c["sub"] else "exact"),
-            "fits" if r is True else "DOES-NOT-FIT(%s)" % r))
+            "fits" if r is True else "not-under-substitute_type(%s)" % r))
         run.cov["traces_validated_against_impl"] += 1
         if r is not True:
-            # the maps returned do not make the attribute usable at the expected type: judge the substituted type
-            # with the specification-side decider before calling it a failing input
-            rp = {"replay": replay_key(sp), "call": c, "model": r, "tt": pl["gp_tt"],
-                  "what": "%s returned an attribute whose type under the returned maps does not pass "
-                          "_is_sigtype_compatible" % c["src"]}
+            # `_get_matching_class` instantiates the receiver class at random, with use-site variance: the returned
+            # map may bind a type parameter to a projection (`out Byte`), and then the attribute's type under
+            # `substitute_type` is a projection, which `_is_sigtype_compatible` does not accept although READING the
+            # attribute through the receiver yields the projection's upper bound.  Such a triple is judged by the
+            # verified checker's read rule (`readType`, rule 2 of the calibration) and the specification-side decider.
+            binds_projection = any(pl["gp_tt"][v]["k"] == "w" for k, v in c["m"])
+            fits = None
+            if binds_projection and not c["sig"] and c["mode"] == "whole":
+                base = add_bt({"lang": sp["lang"], "tt": pl["gp_tt"], "decls": []})
+                a = common.run_driver([dict(base, op="check.readfits",
+                                            calls=[{"attr": c["attr"], "etype": c["etype"], "m": c["m"]}])])[0]
+                if "error" in a:
+                    raise common.HarnessError("driver error on check.readfits: %s" % a["error"][:300])
+                fits = a["r"][0]
+            run.tally("returned_attribute_fits", "%s:through-projection-read:%s" % (
+                c["src"], {True: "fits", False: "DOES-NOT-FIT", None: "not-applicable"}[fits]))
+            if fits is True:
+                continue
+            rp = {"replay": replay_key(sp), "call": c, "model": r, "tt": pl["gp_tt"], "read_rule": fits,
+                  "what": "%s returned an attribute whose type under the returned maps neither passes "
+                          "_is_sigtype_compatible nor, read through a projection, is assignable to the expected "
+                          "type" % c["src"]}
             report(dict(rp, kind="failing-input"), "matching:returned-attribute-does-not-fit:" + c["src"], False)
+
+
+def check_signatures(run, plugin_outputs, report):
+    """4. `_gen_func_from_existing`: the parameter and return types handed to `gen_func_decl` for an overriding
+    function are the model's `overrideSig` of the overridden signature, the superclass map and the (random) renaming
+    of the function's type parameters; `_gen_func_call`: the expected types of the arguments are the callee's
+    parameter types under the final `params_map` (`callArgsExpected`)"""
+    for sp, pl, c, r in _gp_batches(plugin_outputs, "ovr", "check.overridesig"):
+        run.tally("gen_func_from_existing_calls", "%s%s:%s%s" % (
+            "generic-function" if c["generic"] else "plain", ":superclass-map" if c["m"] else "",
+            "agree" if r["ok"] else "DIFFER", "" if r["arity"] else ":ARITY"))
+        run.cov["traces_validated_against_impl"] += 1
+        if not r["ok"]:
+            report({"kind": "broken-correspondence", "replay": replay_key(sp), "call": c, "model": r,
+                    "tt": pl["gp_tt"], "correspondence": "_gen_func_from_existing vs overrideSig"},
+                   "gen_func_from_existing:model-differs", True)
+    for sp, pl in plugin_outputs:
+        if not pl or "error" in pl:
+            continue
+        for c in pl.get("gp", {}).get("call", []):
+            nv = [p for p in c["params"] if p["vararg"]]
+            # the random number of vararg arguments, recovered from the number of recorded expected types
+            c["counts"] = [len(c["args"]) - (len(c["params"]) - 1)] if len(nv) == 1 else []
+            if len(nv) > 1 or (c["counts"] and not 0 <= c["counts"][0] <= 3):
+                c["counts"] = [0] * len(nv)
+    for sp, pl, c, r in _gp_batches(plugin_outputs, "call", "check.callargs"):
+        run.tally("gen_func_call_argument_types", "%s%s%s:%s" % (
+            "callee-created" if c["created"] else "callee-in-scope", ":vararg" if c["counts"] else "",
+            ":map" if c["m"] else "", "agree" if r["ok"] else "DIFFER"))
+        run.cov["traces_validated_against_impl"] += 1
+        if not r["ok"]:
+            report({"kind": "broken-correspondence", "replay": replay_key(sp), "call": c, "model": r,
+                    "tt": pl["gp_tt"], "correspondence": "_gen_func_call argument types vs callArgsExpected"},
+                   "gen_func_call:model-differs", True)
 
 
 def check_folds(run, plugin_outputs):
